@@ -23,6 +23,8 @@ DQ, SQ = '"', "'"
 def esc(atoms, q):
     """raw text between quotes q for a literal whose content is the concatenation of atoms"""
     out = []
+    for x, y in zip(atoms, atoms[1:]):
+        assert not (x == "\\" and y in (DQ, SQ)), "content with a backslash before a quote is outside the universe (LexLit.tla Plain)"
     for a in atoms:
         if a in (DQ, SQ, "\\"):
             out.append("\\" + a if a == q else a)
